@@ -111,6 +111,20 @@ def r2(ctx: Ctx) -> None:
         if not g.must_pass(consumes, n.id, head) or not g.must_pass(consumes, n.id, EXIT):
             ctx.report(fi.where, f"pop-dropped {norm_stmt(st)}", "a popped rectangle can be neither split nor kept on some path: area is lost",
                        lineno=st.lineno)
+    # the work queue is drained: a loop that pops from it runs until it is empty (an extra stop condition leaves pieces behind)
+    from framelint.canon import _truth
+    for n, c, s in pops:
+        if call_name(c) not in ("pop", "popleft") or not isinstance(c.func, ast.Attribute):
+            continue
+        loops = [lp for lp in _loops_of(fi, n.ast) if isinstance(lp, ast.While)]
+        if not loops:
+            continue
+        q = cn.expr(c.func.value)
+        test = _truth(cn.expr(loops[-1].test))
+        ctx.site(fi.where, "the loop that pops from the work queue runs while the queue is non-empty (nothing else stops it)", test=show(test)[:80])
+        if test != q:
+            ctx.report(fi.where, f"queue-not-drained {show(test)[:80]}", "the loop that takes rectangles from the work queue can stop while the queue still holds pieces: "
+                       "those pieces never reach the result, so the refined regions no longer cover what they were cut from", lineno=loops[-1].lineno)
     # no rectangle constructor / geometry store here: pieces are exactly what split() returns
     ctor = [c for _, c, _ in calls if call_name(c) == "Rectangle"]
     stores = [n for n in walk_own(fi.node) if isinstance(n, ast.Attribute) and isinstance(n.ctx, ast.Store)]
